@@ -237,6 +237,21 @@ def probes(ctx):
     return out
 
 
+def specials():
+    """Hand-picked shapes the random generator reaches rarely: many authentication blocks (parse renumbers them 1..N), texts with
+    line breaks / trailing blanks, an empty payload, the same dependency name on two levels."""
+    from .c02 import auth_block, minimal
+
+    yield minimal(auth={f"SuitAuthentication{i}": auth_block(sig="%02x" % i * 8, prot={"suit-cose-key-id": i}) for i in range(1, 13)})
+    txt = {"en": {"suit-text-manifest-description": "line one\nline two\n", "suit-text-update-description": "trailing blank \nnext\r\nwin", "suit-text-manifest-json-source": " lead\n\n",
+                  "suit-text-manifest-yaml-source": "a\u2028b\u0085c\n"}}
+    yield minimal(man={"suit-text": {"suit-digest-algorithm-id": "cose-alg-sha-256"}}, env={"suit-text": txt})
+    yield minimal(env={"suit-integrated-payloads": {"#empty": "", "#x": "00"}})
+    inner = minimal(env={"suit-integrated-payloads": {"#radio": "aa"}})
+    mid = minimal(env={"suit-integrated-dependencies": {"#radio": inner}})
+    yield minimal(env={"suit-integrated-dependencies": {"#app": mid, "#radio": minimal(man={"suit-reference-uri": "other"})}})
+
+
 def plan(ctx):
     n = 14
     per = 110 if not ctx.thorough else 2500
@@ -245,6 +260,7 @@ def plan(ctx):
         specs.append({"kind": "gen", "i": i, "n": per, "depth": 1 + (i % 3 == 0) + (1 if ctx.thorough and i % 6 == 0 else 0),
                       "risky": i % 7 == 3, "guard_off": i == 1})
     specs.append({"kind": "gen", "i": 40, "n": per, "depth": 1, "risky": False, "cli": True})
+    specs.append({"kind": "specials"})
     return specs
 
 
@@ -252,6 +268,16 @@ def run_shard(ctx, spec):
     from hypothesis import strategies as st
 
     acc = Acc()
+    if spec["kind"] == "specials":
+        for i, d in enumerate(specials()):
+            for tname in ("none", "sever", "cache"):
+                case = {"desc": d, "transform": tname, "sel": i}
+                try:
+                    judge(case, acc, ctx)
+                except Violation as v:
+                    if not any(f["bucket"] == v.bucket for f in acc.failures):
+                        acc.fail("roundtrip", case, v.observed, v.expected, bucket=v.bucket)
+        return acc
     strat = st.tuples(
         G.envelope_s(depth=spec["depth"], risky=spec["risky"], small=True, max_auth=3 if spec["i"] % 2 else 2),
         st.sampled_from(TRANSFORMS),
